@@ -59,9 +59,57 @@ func runC06(c *Ctx) {
 	c.floor(1)
 	ruleSeparatorTriviaKept(c)
 
+	c.rule("R6.8", "every pretty-print option sets single fields of the option set it is handed, never the whole set (an indentation option must not reset the semicolon option, nor the reverse)")
+	c.floor(2)
+	ruleOptionsSetTheirOwnField(c)
+
 	c.rule("R6.7", "in a printer that changes the indentation level, every line-break request is followed by an indent request before the next text on every path (the comment replay does not count: it indents only when the token carries trivia)")
 	c.floor(1)
 	ruleIndentAfterNewline(c)
+}
+
+// ruleOptionsSetTheirOwnField (R6.8): the option functions of package compiler receive a pointer to the option set;
+// a store through that pointer itself (`*opts = PrettyPrintOptions{…}`) replaces every option, so the result depends
+// on the order of the options and an indentation option changes more than leading white space.
+func ruleOptionsSetTheirOwnField(c *Ctx) {
+	c.buildSSA()
+	n := 0
+	for _, f := range c.libFunctions("compiler") {
+		if len(f.Params) == 0 {
+			continue
+		}
+		var optParam *ssa.Parameter
+		for _, p := range f.Params {
+			if pt, ok := p.Type().(*types.Pointer); ok && namedIs(pt.Elem(), "compiler", "PrettyPrintOptions") {
+				optParam = p
+			}
+		}
+		if optParam == nil {
+			continue
+		}
+		stores := 0
+		allInstrs(f, func(_ *ssa.BasicBlock, _ int, in ssa.Instruction) {
+			st, ok := in.(*ssa.Store)
+			if !ok {
+				return
+			}
+			root, path := fieldPath(st.Addr)
+			if root != ssa.Value(optParam) {
+				return
+			}
+			stores++
+			n++
+			key := fmt.Sprintf("%s: store #%d through the option pointer", fnName(f), stores)
+			if len(path) == 0 {
+				c.bad(key, st.Pos(), "the whole option set is overwritten: the option resets every other option to its zero value (an indentation option switches semicolons off), and the result depends on the order in which options are given")
+			} else {
+				c.ok(key, st.Pos(), "sets %s", pathString("PrettyPrintOptions", path))
+			}
+		})
+	}
+	if n == 0 {
+		c.unres("option functions", token.NoPos, "no function of package compiler stores through a *PrettyPrintOptions parameter")
+	}
 }
 
 // ruleIndentAfterNewline (R6.7). A printer that changes the indentation level asks for the line break and for the
